@@ -334,8 +334,9 @@ pub fn encrypt_real(c: &mut Ctx, cfg: &Config, orig: &Document) -> Result<Encryp
     // random bytes of try_from, read off its result
     let rev = state.revision();
     let (u_tail, u_salts, o_salts, perms_rnd) = if rev >= 5 {
-        // (the stored Perms block is not encrypted by lopdf — finding F-C06-c — so its random tail is readable)
-        (vec![], state.user_value()[32..48].to_vec(), state.owner_value()[32..48].to_vec(), state.permission_encrypted()[12..16].to_vec())
+        // the random tail of the Perms block: decrypt it with the (independent) aes crate
+        let pr = rf::aes_dec_block(state.file_encryption_key(), state.permission_encrypted());
+        (vec![], state.user_value()[32..48].to_vec(), state.owner_value()[32..48].to_vec(), pr[12..16].to_vec())
     } else if rev >= 3 { (state.user_value()[16..32].to_vec(), vec![], vec![], vec![]) } else { (vec![], vec![], vec![], vec![]) };
     let tbl = h2b_table(rev, state.owner_value(), state.user_value(), &[owner_b.clone(), user_b.clone()]);
     c.corr(format!("c5_mkstate {} {} {} {} {} {} {}", cfg.show(&owner_b, &user_b), hex_tok(&rf::file_id0(orig)),
@@ -442,7 +443,7 @@ fn one_case(c: &mut Ctx, r: &mut Rng, cfg: &Config, orig: &Document, with_save: 
     let iso_clean = n_md == 0 && !(cfg.revision() < 4 && crypt_any) && !crypt_odd;
     if iso_clean {
         for (who, pw) in [("user", &e.user_b), ("owner", &e.owner_b)] {
-            match rf::decrypt_document(&e.doc, pw, false, true) {
+            match rf::decrypt_document(&e.doc, pw, false, false) {
                 Ok((d, _)) => {
                     if let Err(w) = docs_same_mod_length(orig, &d) {
                         c.oracle_fail("reference-decrypt-differs", &format!("ISO reference decrypting lopdf's output with the {} password: {}", who, w), case.clone());
@@ -506,7 +507,7 @@ fn one_case(c: &mut Ctx, r: &mut Rng, cfg: &Config, orig: &Document, with_save: 
             let id0 = rf::file_id0(orig);
             for pw in [&cfg.user, &cfg.owner, &wrong] {
                 let b = sanitize(&e.doc, pw).unwrap_or_default();
-                let expect = rf::authenticate(&d, &id0, &b, true).is_some();
+                let expect = rf::authenticate(&d, &id0, &b, false).is_some();
                 let got = e.doc.authenticate_password(pw).is_ok();
                 if expect != got && !(cfg.is_r6ish() && b.len() > 127) {
                     c.oracle_fail("authenticate-differs", &format!("authenticate_password={} reference={}", got, expect), json!({"pw": pw, "case": case}));
